@@ -167,10 +167,10 @@ theorem readFieldBegin_ext {e p x r} (q : Bytes) (h : readFieldBegin e p = .ok (
 
 @[simp] theorem checkSize_ne_panic (n r m) : checkSize n r ≠ .panic m := by unfold checkSize; osplit
 @[simp] theorem checkSize_ne_fuel (n r) : checkSize n r ≠ .fuel := by unfold checkSize; osplit
-theorem checkSize_ok {n r k} (h : checkSize n r = .ok k) : k ≤ r.length ∧ 0 ≤ n ∧ k = n.toNat := by
+theorem checkSize_inv {n r k} (h : checkSize n r = .ok k) : k ≤ r.length ∧ 0 ≤ n ∧ k = n.toNat := by
   unfold checkSize at h; osplit_at h; omega
 theorem checkSize_ext {n r k} (q : Bytes) (h : checkSize n r = .ok k) : checkSize n (r ++ q) = .ok k := by
-  have := checkSize_ok h
+  have := checkSize_inv h
   unfold checkSize
   have h1 : ¬ n < 0 := by omega
   have h2 : n.toNat ≤ (r ++ q).length := by simp; omega
